@@ -7,6 +7,23 @@ STUBS_COMMON = {
 }
 
 PROPS = {
+    "C03": {
+        "level": "exploration",
+        "budget": {"quick": 80, "thorough": 900},
+        "runs": {"quick": 6000, "thorough": 400000},
+        "rule": "one run = 5..40 MeasureClockOffsetIP calls (each up to 3 attempts) of the real IPClient (interleaved mode on in 2/3 of the runs, recording filter) against 1..8 real "
+                "runIPServer listeners sharing the real timestamp store, gaps 10 ms..10 s (both sides of the 3 s interleave window), server clock offset from 0 to +-30 years with skew up to "
+                "+-100 ppm and steps between exchanges, worlds placed just before the 2036 era rollover, per-direction latency 0..21 ms plus long delays up to 2 s, drop/duplicate up to 30 %, "
+                "server-side missing/late kernel timestamps, optional ephemeral port reuse; non-trivial = at least two accepted exchanges were checked against ground truth; distinct = distinct event-log hash",
+        "required_probes": ["bound-checked", "interleaved-accepted", "basic-reply-to-interleaved-request", "measurement-failed", "near-era", "excluded-clock-step-inside-exchange"],
+        "components": {"real": ["core/client IPClient, MeasureClockOffsetIP", "core/server runIPServer, handleRequest, updateTXTimestamp", "net/udp (cmsg parsers, ReadTXTimestamp)", "net/ntp"],
+                       "stub": dict(STUBS_COMMON, **{"kernel UDP stack": "simnet (sockets, SO_REUSEPORT group, control messages, error queue)"})},
+        "assumptions": ["rounding allowance 16 ns (two truncating 2^-32 s conversions per timestamp and up to eight 1 ns receive-timestamp bumps)",
+                        "the client's clock is the clock its context deadlines use (offset 0); the server clock carries the offset",
+                        "exchanges during which the server clock stepped are excluded from the bound (counted as probe excluded-clock-step-inside-exchange)",
+                        "client-side kernel timestamp faults are outside the property's quantifier and are not injected here",
+                        "SCION half of the property: see C13/C15 worlds (not covered by this check)"],
+    },
     "C12": {
         "level": "exploration",
         "budget": {"quick": 40, "thorough": 600},
@@ -84,7 +101,7 @@ NOT_APPLICABLE = {
 
 # Properties that the design claims but whose world is not built yet (kept current).
 NOT_YET = {p: "designed (DESIGN.md section 3) but the simulated world is not built yet; not claimed until its check runs"
-           for p in ["C03", "C05", "C06", "C07", "C08", "C09", "C10", "C11", "C13", "C14", "C15", "C20"]}
+           for p in ["C05", "C06", "C07", "C08", "C09", "C10", "C11", "C13", "C14", "C15", "C20"]}
 
 PROPS["C01"].update(
     level_text="seeded exploration of multi-round histories of the real synchronization loop with scripted sources (values over the whole int64 range, failures, late answers, sources that never answer) and admissible/inadmissible configurations; per-round invariants: exactly one correction, magnitude bounds from the statement, exact value when every source answered in time, correction no later than the round's timeout; start-up refusal of inadmissible settings. Evidence, not proof.",
@@ -98,6 +115,10 @@ PROPS["C19"].update(
     level_text="seeded exploration of update histories of the real PLL on a scripted clock with external epoch changes; a small model of the start-up sequence written from the statement decides for every recorded Step/Adjust whether it was allowed. Evidence, not proof.",
     level_note="trusts the simulated SystemClock (records Step/Adjust, epoch bump on Step); clock readings are non-decreasing as the statement requires",
     technique="deterministic simulation: scripted clock with injected steps, invariants on recorded actuation calls")
+PROPS["C03"].update(
+    level_text="seeded exploration of exchange histories between the real IP client and the real IP listeners on a simulated network with loss, duplication, delay, reordering, clock offset/skew/steps and timestamp faults; for every accepted exchange the four combined timestamps are attributed to one exchange by the simulator's ground truth and the reported offset is compared with the true clock offset against half the true round-trip delay. Evidence, not proof.",
+    level_note="IP transport only in this check; trusts the simulated kernel (timestamps, error queue) and clocks; 16 ns rounding allowance",
+    technique="deterministic simulation with fault injection: seeded network/clock faults, ground-truth oracle per accepted exchange")
 PROPS["C12"].update(
     level_text="seeded exploration of call histories and statement-level interleavings of the real Provider under a virtual clock over weeks of virtual time; per-call invariants from the statement plus a porcupine linearizability check against a permissive model. Evidence, not proof.",
     level_note="trusts testing/synctest's fake clock, the simulator-aware mutex substituted for sync.Mutex, and that interleavings finer than statements do not matter; constants (24h, 3d, 2d) are taken from the property statement",
